@@ -101,8 +101,10 @@ def generate(run_seed, prop, tier="quick"):
                                           weights=rng.random() < 0.4,
                                           hyper=("S", "P", "N") if rng.random() < 0.4 else (), explicit_h=rng.random() < 0.25,
                                           components=rng.choice([2, 2, 3]) if rng.random() < 0.1 else 1)
-        elif roll < 0.86:
+        elif roll < 0.80:
             item = gen_mol.build_repeat_item(rng)
+        elif roll < 0.87:
+            item = gen_mol.build_squash_item(rng)
         else:
             item = gen_mol.build_curated_item(rng)
         # the matching convention is part of the input: now and then the label-insensitive one
@@ -197,13 +199,20 @@ def generate(run_seed, prop, tier="quick"):
         if faults_enabled["edit"] and rng.random() < 0.4:
             level = rng.randrange(levels)
             names = block_names(item["blocks"][level])
-            script = [{"op": "parse_lib", "item": idx, "perm": rng.random() < 0.3}]
-            for _ in range(rng.randint(1, 3)):
-                script.append({"op": "edit_lib", "level": level, "name": rng.choice(names),
-                               "how": rng.choice(["attr", "attr", "bonding", "delete_node_attr"])})
-            script += [{"op": "construct", "ctor": "own", "perm": False, "item": idx}] + \
+            parse = {"op": "parse_lib", "item": idx, "perm": rng.random() < 0.3}
+            edits = [{"op": "edit_lib", "level": level, "name": rng.choice(names),
+                      "how": rng.choice(["attr", "attr", "bonding", "delete_node_attr"])} for _ in range(rng.randint(1, 3))]
+            final = [{"op": "construct", "ctor": "own", "perm": False, "item": idx}] + \
                 _driver_ops(rng.choice(DRIVERS), levels) + [{"op": "drop"}]
+            script = [parse]
+            if rng.random() < 0.5:
+                # the owner first resolves with the library as parsed, then edits it and resolves again: the second
+                # result must be what a process gives that never resolved before the edit (history-free reference)
+                script += [{"op": "construct", "ctor": "own", "perm": False, "item": idx}] + \
+                    _driver_ops(rng.choice(DRIVERS), levels) + [{"op": "drop"}]
+            script += edits + final
             add_client("editor", idx, script)
+            clients[-1]["history_free"] = [parse] + edits + final
     if faults_enabled["malformed"] and rng.random() < 0.5:
         add_client("malformed", None, [{"op": "malformed", "text": rng.choice(MALFORMED)}
                                        for _ in range(rng.randint(1, 3))])
@@ -777,6 +786,30 @@ def execute(scenario):
                     "detail": "op %s gave %s/%s interleaved but %s/%s alone in a pristine process"
                               % (ev_sim["op"], ev_sim.get("out"), ev_sim.get("dig"), ev_solo.get("out"), ev_solo.get("dig"))})
                 break
+    # -- history-free reference of library owners: earlier resolutions must leave no trace ----------
+    for client in sc["clients"]:
+        if not client.get("history_free") or len(client["history_free"]) == len(client["script"]):
+            continue
+        reduced = copy.deepcopy(sc)
+        reduced["clients"][client["id"]]["script"] = copy.deepcopy(client["history_free"])
+        reduced["schedule"] = [client["id"]] * len(client["history_free"])
+        free = fork_call(run_scenario, (reduced, client["id"]), timeout=180)
+
+        def last_attempt(events):
+            out = []
+            for ev in events:
+                if ev["op"] == "construct":
+                    out = []
+                if ev["op"] in ("resolve", "iter_next", "resolve_all"):
+                    out.append((ev.get("level"), ev.get("out"), ev.get("dig")))
+            return out
+        mine = last_attempt(by_client.get(client["id"], []))
+        want = last_attempt(free["events"])
+        if mine != want:
+            result["violations"].append({
+                "oracle": "C12.same-input C06.isolation", "event": None, "where": "client %d (library owner)" % client["id"],
+                "detail": "after editing its own library the owner resolved %r, a process that never resolved before the edit gives %r"
+                          % (mine[-1:] , want[-1:])})
     # -- agreement with the pristine per-item reference ---------------------------
     for client in sc["clients"]:
         if client["role"] != "resolver":
@@ -922,6 +955,8 @@ def shrink_candidates(scenario):
             while end < len(script) and script[end]["op"] != "drop":
                 end += 1
             if end - s + 1 >= len(script):
+                continue
+            if client.get("history_free"):
                 continue
             new = copy.deepcopy(sc)
             nscript = script[:s] + script[end + 1:]
